@@ -234,6 +234,19 @@ loose_stage = StageBlock([ExogenousMaker('Pi', 0, 'shock'), Continuous1D(backwar
                          name='loose_stage', backward_init=loose_init, hetinputs=[sim_income, sim_grids])
 LOOSE_CALIB = dict(SIM_CALIB, blim=0.0)
 
+# ---- the shipped discrete-choice stage model (labour-force participation with taste shocks; defined in the repository's tests/base/test_dchoice.py) ----
+import importlib.util as _ilu, os as _os
+_dc_path = _os.path.join(_os.path.dirname(_os.path.dirname(_os.path.dirname(sj.__file__))), 'tests', 'base', 'test_dchoice.py')
+if _os.path.exists(_dc_path):
+    _spec = _ilu.spec_from_file_location('verif_dchoice_src', _dc_path)
+    _dcm = _ilu.module_from_spec(_spec)
+    _spec.loader.exec_module(_dcm)
+    dchoice = _dcm.hh
+else:
+    dchoice = None
+DCHOICE_CALIB = {'taste_shock': 0.01, 'r': 0.005, 'beta': 0.97, 'eis': 0.5, 'vphi': 0.3, 'chi': 0.3, 'rho_e': 0.95, 'sd_e': 0.5, 'nE': 3, 'amin': .0, 'amax': 100.0, 'nA': 50,
+                 'atw': 1.0, 'b': 0.5, 's': 0.1, 'f': 0.4}
+
 # ---- (unused placeholder) ---------
 def two_grids(rho_e, sd_e, n_e, rho_f, sd_f, n_f, min_a, max_a, n_a):
     e1, _, Pi_e = grids.markov_rouwenhorst(rho_e, sd_e, n_e)
